@@ -217,10 +217,11 @@ class MG(da.Solver):
         r = self.restriction(r)
         if self.heterogeneous:
             fine_level = (self.mass_coeff, self.diffusion_coeff, self.smoother)
-            self.restrict_parameters()
 
         # Solve/smooth coarse problem or further V-cycle
         try:
+            if self.heterogeneous:
+                self.restrict_parameters()
             if depth == 0:
                 eps = self.smoother(x0=np.zeros_like(r), rhs=r, h=2 * h)
             else:
